@@ -4,6 +4,7 @@ package main
 
 import (
 	"fmt"
+	"strconv"
 	"go/constant"
 	"go/token"
 	"go/types"
@@ -14,6 +15,8 @@ import (
 )
 
 type Ctx struct {
+	disc  map[string]map[string]int // discovery pass: bound SMT variable -> slice offset term -> uses
+	bound []string
 	st    *State
 	old   *State
 	vars  map[string]Val
@@ -68,17 +71,31 @@ func (g *Gen) ctxReturn(res []Val) *Ctx {
 func (g *Gen) localByName(st *State, name string, pos token.Pos) (Val, bool) {
 	var best *ssa.Alloc
 	var bestSV *SV
+	var bestExt token.Pos
 	for v, sv := range g.env {
 		al, ok := v.(*ssa.Alloc)
 		if !ok || al.Comment != name {
 			continue
 		}
+		if name == "rangeindex" && g.curLoop != nil {
+			// the hidden index of the range loop whose header stores it
+			found := false
+			for _, ins := range g.curLoop.header.Instrs {
+				if st, ok := ins.(*ssa.Store); ok && st.Addr == v {
+					found = true
+				}
+			}
+			if !found {
+				continue
+			}
+		}
 		// choose the declaration that is in scope: the latest declared before pos whose scope contains pos
 		if !g.inScope(al, pos) {
 			continue
 		}
-		if best == nil || al.Pos() > best.Pos() {
-			best, bestSV = al, sv
+		ext := g.scopeExtent(al)
+		if best == nil || ext < bestExt || (ext == bestExt && al.Pos() > best.Pos()) {
+			best, bestSV, bestExt = al, sv, ext
 		}
 	}
 	if best == nil {
@@ -105,11 +122,25 @@ func (g *Gen) inScope(al *ssa.Alloc, pos token.Pos) bool {
 	if !al.Pos().IsValid() || !pos.IsValid() {
 		return true
 	}
+	if al.Pos() > pos {
+		return false
+	}
 	sc := g.p.scopeOf(g.fn, al.Pos())
 	if sc == nil {
-		return al.Pos() <= pos
+		return true
 	}
 	return sc.Pos() <= pos && pos < sc.End()
+}
+
+func (g *Gen) scopeExtent(al *ssa.Alloc) token.Pos {
+	if !al.Pos().IsValid() {
+		return 1 << 30
+	}
+	sc := g.p.scopeOf(g.fn, al.Pos())
+	if sc == nil {
+		return 1 << 30
+	}
+	return sc.End() - sc.Pos()
 }
 
 func (g *Gen) evalBool(e *E, cx *Ctx, c *Clause) Term {
@@ -171,10 +202,28 @@ func (g *Gen) specTypeByName(name string, pkg *types.Package) types.Type {
 		return types.NewSlice(types.Typ[types.Uint8])
 	}
 	if strings.HasPrefix(name, "[]") {
-		return types.NewSlice(g.specTypeByName(name[2:], pkg))
+		et := g.specTypeByName(name[2:], pkg)
+		if et == nil {
+			return nil
+		}
+		return types.NewSlice(et)
 	}
 	if strings.HasPrefix(name, "*") {
-		return types.NewPointer(g.specTypeByName(name[1:], pkg))
+		et := g.specTypeByName(name[1:], pkg)
+		if et == nil {
+			return nil
+		}
+		return types.NewPointer(et)
+	}
+	if strings.HasPrefix(name, "[") {
+		if i := strings.Index(name, "]"); i > 1 {
+			n, err := strconv.Atoi(name[1:i])
+			et := g.specTypeByName(name[i+1:], pkg)
+			if err == nil && et != nil {
+				return types.NewArray(et, int64(n))
+			}
+		}
+		return nil
 	}
 	if pkg != nil {
 		if o := pkg.Scope().Lookup(name); o != nil {
@@ -233,6 +282,13 @@ func (g *Gen) evalSpec(e *E, cx *Ctx) Val {
 		if _, ok := x.T.Underlying().(*types.Slice); !ok {
 			oos("slice expression on %v", x.T)
 		}
+		if _, isArr := x.T.(specArrType); isArr {
+			hi = x.C[2]
+			if e.Args[2] != nil {
+				hi = g.specIdx(g.evalSpec(e.Args[2], cx))
+			}
+			return Val{T: x.T, C: []Term{x.C[0], g.addI(x.C[1], lo), g.subI(hi, lo)}}
+		}
 		hi = x.C[2]
 		if e.Args[2] != nil {
 			hi = g.specIdx(g.evalSpec(e.Args[2], cx))
@@ -269,6 +325,8 @@ func (g *Gen) evalSpec(e *E, cx *Ctx) Val {
 		}
 		var decls []string
 		var guards []Term
+		var qterms []Term
+		var qtypes []types.Type
 		for _, q := range e.Vars {
 			t := g.specTypeByName(q.Type, cx.pkg)
 			if t == nil {
@@ -282,27 +340,51 @@ func (g *Gen) evalSpec(e *E, cx *Ctx) Val {
 			name := fmt.Sprintf("%s!q%d", q.Name, g.n)
 			tv := Term{smtName(name), lay[0].Sort}
 			decls = append(decls, fmt.Sprintf("(%s %s)", tv.S, tv.Sort))
-			v := Val{T: t, C: []Term{tv}}
-			ncx.vars[q.Name] = v
-			ncx.oldV[q.Name] = v
+			qterms = append(qterms, tv)
+			qtypes = append(qtypes, t)
 			if ii, ok := intInfo(t); ok && tv.Sort == SInt && q.Type != "int" {
 				guards = append(guards, rangeFact(tv, ii))
 			}
 		}
-		// evaluation of the body must not emit declarations that mention bound variables: collect side lines
-		mark := len(g.lines)
+		bind := func(shift map[string]Term) {
+			for i, q := range e.Vars {
+				tv := qterms[i]
+				if s, ok := shift[tv.S]; ok {
+					tv = linNorm(Term{app("-", tv.S, s.S), SInt})
+				}
+				v := Val{T: qtypes[i], C: []Term{tv}}
+				ncx.vars[q.Name] = v
+				ncx.oldV[q.Name] = v
+			}
+		}
+		// pass 1: discover which slice offsets the bound variables are used with
+		ncx.disc = map[string]map[string]int{}
+		for _, tv := range qterms {
+			ncx.bound = append(ncx.bound, tv.S)
+		}
+		bind(nil)
+		g.evalSpec(e.Args[0], &ncx)
+		shift := map[string]Term{}
+		for _, tv := range qterms {
+			best, bestN := "", 0
+			for off, n := range ncx.disc[tv.S] {
+				if off != "0" && (n > bestN || (n == bestN && off < best)) {
+					best, bestN = off, n
+				}
+			}
+			if bestN > 0 && tv.Sort == SInt {
+				shift[tv.S] = Term{best, SInt}
+			}
+		}
+		ncx.disc = cx.disc
+		ncx.bound = append([]string(nil), cx.bound...)
+		for _, tv := range qterms {
+			ncx.bound = append(ncx.bound, tv.S)
+		}
+		bind(shift)
 		body := g.evalSpec(e.Args[0], &ncx)
 		if len(body.C) != 1 || body.C[0].Sort != SBool {
 			oos("quantifier body is not boolean")
-		}
-		// any lines emitted during body evaluation that mention bound variables are illegal
-		for _, l := range g.lines[mark:] {
-			for _, q := range e.Vars {
-				if strings.Contains(l, "|"+q.Name+"!q") {
-					// drop range assumptions on bound-variable dependent loads, inline definitions
-					_ = l
-				}
-			}
 		}
 		b := body.C[0]
 		if e.Op == "forall" {
@@ -425,7 +507,7 @@ func (g *Gen) specField(x Val, name string, cx *Ctx) Val {
 				fa := *a
 				fa.Path = "." + name
 				fa.T = stt.Field(i).Type()
-				return g.loadAddr(cx.st, &fa)
+				return g.loadAddrPure(cx.st, &fa)
 			}
 		}
 		// embedded promotion (one level)
@@ -434,7 +516,7 @@ func (g *Gen) specField(x Val, name string, cx *Ctx) Val {
 				fa := *a
 				fa.Path = "." + stt.Field(i).Name()
 				fa.T = stt.Field(i).Type()
-				inner := g.loadAddr(cx.st, &fa)
+				inner := g.loadAddrPure(cx.st, &fa)
 				if v, ok := g.trySpecField(inner, name, cx); ok {
 					return v
 				}
@@ -474,6 +556,18 @@ func (g *Gen) specIndex(x, i Val, cx *Ctx) Val {
 		oos("index of untyped value")
 	}
 	iv := g.specIdx(i)
+	if pt, ok := x.T.Underlying().(*types.Pointer); ok {
+		if _, isArr := pt.Elem().Underlying().(*types.Array); isArr {
+			x = g.loadAddrPure(cx.st, g.refAddr(x.C[0], pt.Elem()))
+		}
+	}
+	if _, isArr := x.T.(specArrType); isArr {
+		g.recordDisc(cx, x, iv)
+		return Val{T: elemTypeOf(x.T), C: []Term{sel(x.C[0], g.addI(x.C[1], iv))}}
+	}
+	if len(x.C) >= 3 {
+		g.recordDisc(cx, x, iv)
+	}
 	switch xt := x.T.Underlying().(type) {
 	case *types.Slice:
 		a := &Addr{K: aElem, Fam: elemFam(xt.Elem()), Ref: x.C[0], Idx: g.addI(x.C[1], iv), T: xt.Elem()}
@@ -827,12 +921,16 @@ func (g *Gen) applySpecFunc(sf *SpecFunc, e *E, cx *Ctx) Val {
 			lay := g.layout(pt)
 			v = Val{T: pt, C: []Term{g.unifyTo(v.C[0], lay[0].Sort)}}
 		}
+		if _, isArr := v.T.(specArrType); isArr {
+			args = append(args, v)
+			continue
+		}
 		args = append(args, Val{T: pt, C: v.C})
 	}
-	if sf.Uninter || sf.Rec {
+	if sf.Uninter || sf.Rec || sf.Opaque {
 		return g.applyDeclaredSpec(sf, args, cx, pkg)
 	}
-	ncx := &Ctx{st: cx.st, old: cx.old, vars: map[string]Val{}, oldV: map[string]Val{}, pkg: pkg}
+	ncx := &Ctx{st: cx.st, old: cx.old, vars: map[string]Val{}, oldV: map[string]Val{}, pkg: pkg, disc: cx.disc, bound: cx.bound}
 	for i, p := range sf.Params {
 		ncx.vars[p.Name] = args[i]
 		ncx.oldV[p.Name] = args[i]
@@ -868,6 +966,10 @@ func (g *Gen) applyDeclaredSpec(sf *SpecFunc, args []Val, cx *Ctx, pkg *types.Pa
 	var flat []Term
 	var sorts []string
 	for _, a := range args {
+		if _, isArr := a.T.(specArrType); isArr {
+			flat = append(flat, a.C...)
+			continue
+		}
 		if st, ok := a.T.Underlying().(*types.Slice); ok {
 			// pass the backing array and window
 			lay := g.layout(st.Elem())
@@ -953,12 +1055,119 @@ func (g *Gen) defineRecSpec(sf *SpecFunc, name, rsort string, pkg *types.Package
 	if bt.Sort != rsort {
 		bt = g.unifyTo(bt, rsort)
 	}
-	g.emit(fmt.Sprintf("(define-fun-rec %s (%s) %s %s)", name, strings.Join(decls, " "), rsort, bt.S))
+	var sorts, names []string
+	for _, p := range sf.Params {
+		for _, t := range vars[p.Name].C {
+			names = append(names, t.S)
+			sorts = append(sorts, t.Sort)
+		}
+	}
+	g.emit(fmt.Sprintf("(declare-fun %s (%s) %s)", name, strings.Join(sorts, " "), rsort))
+	appl := app(name, names...)
+	g.emit(fmt.Sprintf("(assert (forall (%s) (! (= %s %s) :pattern (%s))))", strings.Join(decls, " "), appl, bt.S, appl))
+}
+
+func elemTypeOf(t types.Type) types.Type {
+	if sa, ok := t.(specArrType); ok {
+		t = sa.Type
+	}
+	if sl, ok := t.Underlying().(*types.Slice); ok {
+		return sl.Elem()
+	}
+	return types.Typ[types.Uint8]
+}
+
+func (g *Gen) recordDisc(cx *Ctx, x Val, iv Term) {
+	if cx.disc == nil || iv.Sort != SInt {
+		return
+	}
+	px := parseSx(iv.S)
+	if px == nil {
+		return
+	}
+	l := linOf(px)
+	nb, natoms := 0, 0
+	for k, c := range l.coef {
+		if c.Sign() == 0 {
+			continue
+		}
+		natoms++
+		for _, bv := range cx.bound {
+			if bv == k {
+				nb++
+			}
+		}
+	}
+	for _, bv := range cx.bound {
+		if c, ok := l.coef[bv]; ok && c.Cmp(big.NewInt(1)) == 0 {
+			off := linNorm(x.C[1]).S
+			if cx.disc[bv] == nil {
+				cx.disc[bv] = map[string]int{}
+			}
+			w := 1
+			switch {
+			case nb == 1 && natoms == 1 && l.konst.Sign() == 0:
+				w = 10000 // the variable alone: best trigger shape
+			case nb == 1:
+				w = 100
+			}
+			cx.disc[bv][off] += w
+		}
+	}
 }
 
 // specArrType marks a slice parameter of a recursive spec function that is represented by (array, off, len)
 type specArrType struct{ types.Type }
 
 func (g *Gen) builtinSpec(e *E, cx *Ctx) (Val, bool) {
+	arg := func(i int) Val { return g.evalSpec(e.Args[i], cx) }
+	switch e.Name {
+	case "le64", "le32", "le16":
+		// little-endian load of the first 8/4/2 bytes of a byte slice
+		n := map[string]int{"le64": 8, "le32": 4, "le16": 2}[e.Name]
+		b := arg(0)
+		rt := map[int]types.Type{8: types.Typ[types.Uint64], 4: types.Typ[types.Uint32], 2: types.Typ[types.Uint16]}[n]
+		fam := elemFam(types.Typ[types.Uint8])
+		g.noteLeaf(fam, Comp{"", g.byteSort(), types.Typ[types.Uint8], "int"})
+		f := g.famTerm(cx.st, fam, arrSort(SInt, arrSort(g.intRep(), g.byteSort())))
+		arr := sel(f, b.C[0])
+		byteAt := func(i int) Term { return sel(arr, g.addI(b.C[1], litOfSort(bigInt(int64(i)), g.intRep()))) }
+		if isBV(g.byteSort()) {
+			t := byteAt(n - 1).S
+			for i := n - 2; i >= 0; i-- {
+				t = app("concat", t, byteAt(i).S)
+			}
+			return Val{T: rt, C: []Term{{t, bvSort(8 * n)}}}, true
+		}
+		var parts []string
+		for i := 0; i < n; i++ {
+			parts = append(parts, app("*", byteAt(i).S, pow2(8*i).String()))
+		}
+		return Val{T: rt, C: []Term{{app("+", parts...), SInt}}}, true
+	case "tz64", "tz32", "tz16", "tz8":
+		x := arg(0)
+		w := map[string]int{"tz64": 64, "tz32": 32, "tz16": 16, "tz8": 8}[e.Name]
+		if !isBV(x.C[0].Sort) || bvWidth(x.C[0].Sort) != w {
+			oos("%s needs a %d-bit vector argument (use arith mixed/bv)", e.Name, w)
+		}
+		ir := g.intRep()
+		t := litOfSort(bigInt(int64(w)), ir).S
+		for i := w - 1; i >= 0; i-- {
+			t = app("ite", app("=", app(fmt.Sprintf("(_ extract %d %d)", i, i), x.C[0].S), "#b1"), litOfSort(bigInt(int64(i)), ir).S, t)
+		}
+		return Val{T: types.Typ[types.Int], C: []Term{{t, ir}}}, true
+	case "lz64", "lz32", "lz8":
+		x := arg(0)
+		w := map[string]int{"lz64": 64, "lz32": 32, "lz8": 8}[e.Name]
+		if !isBV(x.C[0].Sort) || bvWidth(x.C[0].Sort) != w {
+			oos("%s needs a %d-bit vector argument", e.Name, w)
+		}
+		ir := g.intRep()
+		t := litOfSort(bigInt(int64(w)), ir).S
+		for i := 0; i < w; i++ {
+			t = app("ite", app("=", app(fmt.Sprintf("(_ extract %d %d)", i, i), x.C[0].S), "#b1"), litOfSort(bigInt(int64(w-1-i)), ir).S, t)
+		}
+		return Val{T: types.Typ[types.Int], C: []Term{{t, ir}}}, true
+	}
 	return Val{}, false
 }
